@@ -5,6 +5,7 @@ CONSTANTS
   NW = 0
   NER = 0
   NEnt = 1
+  Hier = 0
   NTy = 1
   NVal = 1
   OpNames = {"run", "sysev", "bc"}
